@@ -342,7 +342,7 @@ func run(c *core.Child) {
 					if !c.Begin(id) {
 						continue
 					}
-					o := &values.Outcomes{Explicit: map[string]values.Kind{p.path: k}}
+					o := &values.Outcomes{Explicit: map[string]values.Kind{p.path: k}, ErrorForms: true}
 					check(c, env, text, d.AST, opName, vars, o, planIf(plan, (pi+int(k))%4 == 0))
 					c.Feature("fault:" + k.String())
 					c.Nontrivial(core.HashString(s.m.SDL() + "\x00" + text + "\x00" + harness.CanonArgs(vars) + "\x00" + o.Describe()))
@@ -359,7 +359,7 @@ func run(c *core.Child) {
 					continue
 				}
 				mr := c.RNG(4, uint64(si), uint64(di), uint64(mi))
-				o := &values.Outcomes{Seed: mr.U64(), Density: mr.Range(10, 50), Kinds: faultKinds}
+				o := &values.Outcomes{Seed: mr.U64(), Density: mr.Range(10, 50), Kinds: faultKinds, ErrorForms: true}
 				check(c, env, text, d.AST, opName, vars, o, planIf(plan, mi%3 == 0))
 				c.Feature("multi-fault")
 				c.Nontrivial(core.HashString(s.m.SDL() + "\x00" + text + "\x00" + harness.CanonArgs(vars) + "\x00" + o.Describe()))
